@@ -39,6 +39,8 @@ type Edit struct {
 type C20Case struct {
 	Edits  []Edit `json:"edits"`
 	KeyLog bool   `json:"keyLog,omitempty"` // the process is started with a TLS key log file (chf -l <file>)
+	// KeyLogBad: ... and that file cannot be created (its directory does not exist): an error, not a crash
+	KeyLogBad bool `json:"keyLogBad,omitempty"`
 	// PadKiB: the file carries that many KiB of comment lines between the first and the second entry of the service
 	// list, which is written last (after every mandatory section): a large file whose list goes on far into it
 	PadKiB int `json:"padKiB,omitempty"`
@@ -102,6 +104,7 @@ var sections = []string{"info", "info.version", "logger", "logger.level", "confi
 func genC20(t *rapid.T) C20Case {
 	var c C20Case
 	c.KeyLog = rapid.IntRange(0, 2).Draw(t, "keyLog") == 0
+	c.KeyLogBad = c.KeyLog && rapid.IntRange(0, 2).Draw(t, "keyLogBad") == 0
 	n := rapid.SampledFrom([]int{1, 1, 1, 2, 2, 3, 5}).Draw(t, "nEdits")
 	for i := 0; i < n; i++ {
 		switch rapid.IntRange(0, 11).Draw(t, "editKind") {
@@ -300,6 +303,10 @@ func judgeC20(c C20Case) *h.Verdict {
 	if c.KeyLog {
 		cmd.Env = append(cmd.Env, "VERIF_C20_KEYLOG=1")
 		v.Label("started-with-tls-key-log")
+		if c.KeyLogBad {
+			cmd.Env = append(cmd.Env, "VERIF_C20_KEYLOG_BAD=1")
+			v.Label("tls-key-log-cannot-be-created")
+		}
 	}
 	var out bytes.Buffer
 	cmd.Stdout, cmd.Stderr = &out, &out
@@ -440,6 +447,9 @@ func child(file string) int {
 	keyLog := ""
 	if os.Getenv("VERIF_C20_KEYLOG") != "" {
 		keyLog = file + ".keylog" // the operator asked for a TLS key log (chf -l <file>)
+		if os.Getenv("VERIF_C20_KEYLOG_BAD") != "" {
+			keyLog = file + ".no-such-directory/keys.log"
+		}
 		defer os.Remove(keyLog)
 	}
 	if err := verifapi.RunSBIServerKeyLog(keyLog); err != nil {
@@ -505,6 +515,12 @@ func TestC20SingleEdits(t *testing.T) {
 		for j, p := range []string{"configuration.sbi.tls", "configuration.sbi.tls.pem", "configuration.sbi.tls.key", "configuration.nrfCertPem"} {
 			if j%nsh == shard {
 				if !yield(C20Case{KeyLog: true, Edits: []Edit{{Path: p, Op: "drop"}}}) {
+					return
+				}
+				if !yield(C20Case{KeyLog: true, KeyLogBad: true, Edits: []Edit{{Path: p, Op: "drop"}}}) {
+					return
+				}
+				if !yield(C20Case{KeyLog: true, KeyLogBad: true, Edits: []Edit{{Path: "configuration.sbi.scheme", Op: "set", Val: []string{"http", "https"}[j%2]}}}) {
 					return
 				}
 			}
